@@ -70,6 +70,7 @@ type Builder struct {
 	// Typically tens or hundreds of meg. This is for one single file.
 	alloc            *z.Allocator
 	curBlock         *bblock
+	verifPending     atomic.Int32 // blocks handed to handleBlock and not yet processed (simulation only)
 	compressedSize   atomic.Uint32
 	uncompressedSize atomic.Uint32
 
@@ -185,6 +186,9 @@ func (b *Builder) handleBlock() {
 		item.data = blockBuf
 		item.end = len(blockBuf)
 		b.compressedSize.Add(uint32(len(blockBuf)))
+		if vhook.On {
+			b.verifPending.Add(-1)
+		}
 	}
 }
 
@@ -288,7 +292,18 @@ func (b *Builder) finishBlock() {
 
 	// If compression/encryption is enabled, we need to send the block to the blockChan.
 	if b.blockChan != nil {
+		if vhook.On {
+			b.verifPending.Add(1)
+		}
 		b.blockChan <- b.curBlock
+		if vhook.On {
+			// Under simulation wait until the block has been compressed/encrypted:
+			// ReachedCapacity reads compressedSize, so where a table ends would
+			// otherwise depend on how far the background goroutines have got.
+			for b.verifPending.Load() > 0 {
+				runtime.Gosched()
+			}
+		}
 	}
 }
 
